@@ -77,9 +77,13 @@ GridShape(t, e) == e.shape = <<t.ntheta, t.nphi>> /\ Len(e.obs) = Len(t.gp)
 (* ---- one clause list per event; "" = the event is explained ----------------- *)
 FuncAfter(st, e) == IF e.ev = "Combine" THEN Combine(e.k, st.func, e.g) ELSE st.func
 
-CheckGridInput(t, exp, func, e, what) ==   \* Sample / Combine on the grid: harness-built input, guarded
-  IF ~GridShape(t, e) THEN "OOD harness-" \o what \o "-shape" ELSE
-  IF ~MatchesExp(func, e.obs, exp, t.ri) THEN "OOD harness-" \o what ELSE ""
+(* Sample / Combine on the grid: the reference function evaluated where the object says its grid is at that moment (through
+   compute_on_grid / the grid property).  The references of the trace were taken at the object's theta / phi nodes when it was
+   built: a disagreement means the grid handed out is no longer that grid (e.g. a caller's edit of an earlier copy leaked in). *)
+CheckGridInput(t, exp, func, e, what) ==
+  IF e.exc # "" THEN "REJECT Raised:" \o what ELSE
+  IF ~GridShape(t, e) THEN "REJECT GridShape:" \o what ELSE
+  IF ~MatchesExp(func, e.obs, exp, t.ri) THEN "REJECT GridRef:" \o what ELSE ""
 
 CheckSynthesis(t, st, e) ==
   IF e.exc # "" THEN "REJECT Raised:" \o e.ev ELSE
